@@ -48,6 +48,8 @@ class RedisRecycleEnv(Env):
     def d_Conn(s, M, st, th, v): return True
 
     def t_PartialEq__eq(s, M, st, th, ci, a):
+        r0 = super().t_PartialEq__eq(M, st, th, ci, a)
+        if r0 is not None: return r0
         x, y = a
         def un(v):
             while isinstance(v, Ref):
@@ -127,6 +129,18 @@ class RedisRecycleEnv(Env):
     def d_Pipeline(s, M, st, th, v): return True
     def d_Cmd(s, M, st, th, v): return True
     def d_RedisError(s, M, st, th, v): return True
+    # classification helpers of the redis crate's error type: the reply that failed may be of either class
+    def _either(s, M, st, what):
+        outs = []
+        for b in (True, False):
+            st2 = st.clone(); st2.logev('env', what, b); outs.append(('ret', st2, b))
+        return outs
+    def p_RedisError__is_unrecoverable_error(s, M, st, th, ci, a): return s._either(M, st, 'is_unrecoverable_error')
+    def p_RedisError__is_connection_dropped(s, M, st, th, ci, a): return s._either(M, st, 'is_connection_dropped')
+    def p_RedisError__is_io_error(s, M, st, th, ci, a): return s._either(M, st, 'is_io_error')
+    def p_RedisError__is_timeout(s, M, st, th, ci, a): return s._either(M, st, 'is_timeout')
+    def p_RedisError__is_connection_refusal(s, M, st, th, ci, a): return s._either(M, st, 'is_connection_refusal')
+    def p_RedisError__is_cluster_error(s, M, st, th, ci, a): return s._either(M, st, 'is_cluster_error')
     def d_RecycleError(s, M, st, th, v): return True
 
     def convert_err(s, M, st, th, ci, e):
